@@ -152,6 +152,7 @@ func (ex *Exec) shadowOf(key interface{}) *shadowCell {
 }
 
 func (ex *Exec) raceReadKey(fr *frame, key interface{}, what string) {
+	ex.Stats.RaceChecks++
 	s := ex.shadowOf(key)
 	if s.hasW && !ex.hb(s.w) {
 		ex.reportRace(what, fr, s.w, "write", "read")
@@ -163,6 +164,7 @@ func (ex *Exec) raceReadKey(fr *frame, key interface{}, what string) {
 }
 
 func (ex *Exec) raceWriteKey(fr *frame, key interface{}, what string) {
+	ex.Stats.RaceChecks++
 	s := ex.shadowOf(key)
 	if s.hasW && !ex.hb(s.w) {
 		ex.reportRace(what, fr, s.w, "write", "write")
@@ -220,6 +222,7 @@ func (ex *Exec) releaseVC(dst vclock) vclock {
 		return dst
 	}
 	dst = vcJoin(dst, ex.curVC())
+	ex.Stats.SyncEdges++
 	ex.tick()
 	return dst
 }
